@@ -141,15 +141,10 @@ Proof. unfold set_coll_lastcas. rewrite map_map. apply map_ext. intros [id [nm l
 Lemma set_lastcas_names cid c l : map (fun x : N * (string * N) => fst (snd x)) (set_coll_lastcas cid c l) = map (fun x => fst (snd x)) l.
 Proof. unfold set_coll_lastcas. rewrite map_map. apply map_ext. intros [id [nm lc]]; cbn. destruct (id =? cid); reflexivity. Qed.
 
-Lemma raise_lastcas_ids cid c l : map fst (raise_coll_lastcas cid c l) = map fst l.
-Proof. unfold raise_coll_lastcas. rewrite map_map. apply map_ext. intros [id [nm lc]]; cbn. destruct (id =? cid); reflexivity. Qed.
-Lemma raise_lastcas_names cid c l : map (fun x : N * (string * N) => fst (snd x)) (raise_coll_lastcas cid c l) = map (fun x => fst (snd x)) l.
-Proof. unfold raise_coll_lastcas. rewrite map_map. apply map_ext. intros [id [nm lc]]; cbn. destruct (id =? cid); reflexivity. Qed.
-
 Lemma kv_on_ids s x cid key op : coll_ids (sr_store (kv_on s x cid key op)) = coll_ids s.
-Proof. unfold kv_on, coll_ids; cbv zeta; cbn [sr_store s_colls]. destruct (kr_commit _); [apply set_lastcas_ids | destruct (is_withmeta op && _); [apply raise_lastcas_ids | reflexivity]]. Qed.
+Proof. unfold kv_on, coll_ids; cbv zeta; cbn [sr_store s_colls]. destruct (kr_commit _); [apply set_lastcas_ids | reflexivity]. Qed.
 Lemma kv_on_names s x cid key op : coll_names (sr_store (kv_on s x cid key op)) = coll_names s.
-Proof. unfold kv_on, coll_names; cbv zeta; cbn [sr_store s_colls]. destruct (kr_commit _); [apply set_lastcas_names | destruct (is_withmeta op && _); [apply raise_lastcas_names | reflexivity]]. Qed.
+Proof. unfold kv_on, coll_names; cbv zeta; cbn [sr_store s_colls]. destruct (kr_commit _); [apply set_lastcas_names | reflexivity]. Qed.
 Lemma kv_on_nextcoll s x cid key op : s_nextcoll (sr_store (kv_on s x cid key op)) = s_nextcoll s.
 Proof. reflexivity. Qed.
 
@@ -251,11 +246,9 @@ Theorem kv_on_other_lastcas s x cid key op cid' p :
   cid' <> cid -> In (cid', p) (s_colls s) -> In (cid', p) (s_colls (sr_store (kv_on s x cid key op))).
 Proof.
   intros Hne Hin. unfold kv_on; cbv zeta; cbn [sr_store s_colls].
-  destruct (kr_commit _); [|destruct (is_withmeta op && _); [|exact Hin]].
-  - unfold set_coll_lastcas. apply in_map_iff. exists (cid', p). split; [|exact Hin]. cbn.
-    destruct (N.eqb_spec cid' cid); [contradiction | reflexivity].
-  - unfold raise_coll_lastcas. apply in_map_iff. exists (cid', p). split; [|exact Hin]. cbn.
-    destruct (N.eqb_spec cid' cid); [contradiction | reflexivity].
+  destruct (kr_commit _); [|exact Hin].
+  unfold set_coll_lastcas. apply in_map_iff. exists (cid', p). split; [|exact Hin]. cbn.
+  destruct (N.eqb_spec cid' cid); [contradiction | reflexivity].
 Qed.
 
 (* stated with collection NAMES, as a client addresses them *)
